@@ -376,7 +376,7 @@ fn judge(o: &mut Outcome, w: &World, r: &WorldOut) {
         return;
     }
     for v in &r.violations {
-        o.violation("c12:protocol-violation-seen-by-node", v.clone(), replay.clone());
+        o.node_violation("c12", &v, replay.clone());
     }
     let mnodes: Vec<replication::MNode> = w.nodes.iter().map(|n| replication::MNode { dc: n.dc.clone(), rack: n.rack.clone(), tokens: n.tokens.clone() }).collect();
     o.class(&format!("nodes:{}", w.nodes.len()));
@@ -687,7 +687,7 @@ fn judge_late(o: &mut Outcome, seed: u64, r: &LateOut) {
         return;
     }
     for v in &r.violations {
-        o.violation("c12:protocol-violation-seen-by-node", v.clone(), json!({"late_joiner_seed": seed}));
+        o.node_violation("c12", &v, json!({"late_joiner_seed": seed}));
     }
     let replay = json!({"late_joiner_seed": seed, "tu_announced_first": r.tu_first, "failover": r.failover, "shards": r.shards, "tablets_tt": format!("{:?}", r.tablets_tt)});
     for (op, token, first) in &r.ops {
